@@ -93,6 +93,13 @@ func (c *Ctx) deepLeaves(fn *ssa.Function, isRead bool) (out []leaf, ok bool, wh
 				id = dest
 			}
 		}
+		if isRead && id == "" {
+			// read into a plain local whose content is put into a field of the result
+			// afterwards: the position is named by that field as well
+			if a, isA := r.v.(*ssa.Alloc); isA {
+				id = d.loadedIntoField(a, r.fr)
+			}
+		}
 		if isRead {
 			p, isPtr := t.Underlying().(*types.Pointer)
 			if !isPtr {
@@ -134,6 +141,10 @@ func (c *Ctx) deepLeaves(fn *ssa.Function, isRead bool) (out []leaf, ok bool, wh
 			out = append(out, leaf{id: firstNonEmpty(id, "bytes"), width: -1, order: "-", src: e})
 			return
 		}
+		if p, isPtr := t.Underlying().(*types.Pointer); isPtr && !isRead && binarySize(p.Elem()) >= 0 {
+			// binary.Write of a pointer encodes the fixed-size value it points to
+			t = p.Elem()
+		}
 		if binarySize(t) < 0 {
 			fail("a datum of variable size (" + t.String() + ")")
 			return
@@ -173,7 +184,7 @@ func (c *Ctx) deepLeaves(fn *ssa.Function, isRead bool) (out []leaf, ok bool, wh
 			key := f.parent.id + "|" + name(f.fn)
 			if first, seen := firstSite[key]; !seen {
 				firstSite[key] = site
-			} else if first != site && exclusiveCalls(first, site) {
+			} else if first != site && exclusiveCalls(first, site) && d.sameDestinations(first, site, f.parent) {
 				skipFrame[f] = true
 				return true
 			}
@@ -298,7 +309,22 @@ func (c *Ctx) deepLeaves(fn *ssa.Function, isRead bool) (out []leaf, ok bool, wh
 				}
 				continue
 			}
+			before := len(out)
 			c.packedRead(d, call, di.fr, args[1], &out, fail)
+			// the read sits in a helper that a loop calls once per item and what it decodes
+			// has no name of its own: which datum this is depends on the iteration, and
+			// the loop is not one the evaluator unrolls - no layout is claimed (as for a
+			// binary.Read of a datum selected by a loop)
+			for f := di.fr; f != nil && f.parent != nil && f.site != nil; f = f.parent {
+				if f.site.Block() == nil || !inLoop(f.parent.fn, f.site.Block()) {
+					continue
+				}
+				for _, lf := range out[before:] {
+					if lf.id == "value" {
+						fail(whyPerItemHelper)
+					}
+				}
+			}
 		case !isRead && si == 0 && (call.Call.IsInvoke() && call.Call.Method.Name() == "Write" || id == "bytes.Buffer.Write"):
 			var segs []bseg
 			okSeq := true
@@ -471,6 +497,11 @@ func (d *deepView) copyDest(r dval) string {
 		return ""
 	}
 	own := ir.FieldID(fa)
+	// not a scratch structure: it is what the anchor function hands back (by address or
+	// by value); a copy of one of its fields kept elsewhere does not rename the position
+	if d.returnedByRoot(obj) {
+		return ""
+	}
 	dest := ""
 	for _, di := range d.order {
 		st, isSt := di.i.(*ssa.Store)
